@@ -1,7 +1,9 @@
+import Driver.Drv.Import
 import Driver.Drv.Lru
 namespace Driver
 
 def drivers : List (String × CaseFn) := [
+  ("import", Driver.Drv.Import.runCase),
   ("lru", Driver.Drv.Lru.runCase)]
 
 end Driver
